@@ -4,6 +4,7 @@ package core
 
 import (
 	"bufio"
+	"bytes"
 	"crypto/sha256"
 	"encoding/hex"
 	"encoding/json"
@@ -11,6 +12,7 @@ import (
 	"fmt"
 	"hash/fnv"
 	"os"
+	"os/exec"
 	"path/filepath"
 	"runtime"
 	"sort"
@@ -380,6 +382,32 @@ func (r *Report) Parallel(n int, fn func(i int)) {
 		}()
 	}
 	wg.Wait()
+}
+
+// Shards runs work(i) for i in [0,n) in separate worker processes (re-exec of this binary with
+// VERIF_SHARD=i), Workers at a time, and returns each worker's JSON result (nil if it died). In a worker
+// process it runs work(shard), prints the result and exits.
+func (r *Report) Shards(n int, work func(i int) any, extraEnv ...string) []json.RawMessage {
+	if s := os.Getenv("VERIF_SHARD"); s != "" {
+		i, _ := strconv.Atoi(s)
+		out, _ := json.Marshal(work(i))
+		fmt.Printf("\nSHARDRESULT %s\n", out)
+		os.Exit(0)
+	}
+	res := make([]json.RawMessage, n)
+	exe, _ := os.Executable()
+	r.Parallel(n, func(i int) {
+		cmd := exec.Command(exe, os.Args[1:]...)
+		cmd.Env = append(append(os.Environ(), "VERIF_SHARD="+strconv.Itoa(i)), extraEnv...)
+		out, err := cmd.Output()
+		_ = err
+		for _, line := range bytes.Split(out, []byte("\n")) {
+			if bytes.HasPrefix(line, []byte("SHARDRESULT ")) {
+				res[i] = append(json.RawMessage{}, line[len("SHARDRESULT "):]...)
+			}
+		}
+	})
+	return res
 }
 
 // LoadReplay decodes the "case" member of a replay file into v.
